@@ -488,3 +488,83 @@ total_prim!(c04_prim_dec64, serde_amqp::primitives::Dec64, 10, |a, b| a.as_inner
 // @mem 24
 // @unwind 3
 total_prim!(c04_prim_opt_u16, Option<u16>, 4, |a, b| a == b);
+
+// ---- allocation proportional to the input: the decoder must not allocate what a length field merely claims ----
+// Under Kani `Global::alloc_impl` / `Global::grow_impl` (every heap allocation and growth) are stubbed
+// by functions asserting size <= LIMIT; natively the replay binary's global allocator records the
+// largest request.
+
+#[cfg(kani)]
+pub static mut ALLOC_LIMIT: usize = usize::MAX;
+
+/// Stub for `alloc::alloc::Global::alloc_impl` (every Vec/String/Box allocation goes through it):
+/// asserts the requested size against the limit set by the harness, then allocates for real.
+#[cfg(kani)]
+pub fn alloc_impl_stub(_g: &std::alloc::Global, layout: std::alloc::Layout, zeroed: bool) -> Result<std::ptr::NonNull<[u8]>, std::alloc::AllocError> {
+    use std::ptr::NonNull;
+    unsafe {
+        assert!(layout.size() <= ALLOC_LIMIT, "[C04] allocation out of proportion to the input length");
+    }
+    if layout.size() == 0 {
+        return Ok(NonNull::slice_from_raw_parts(unsafe { NonNull::new_unchecked(layout.align() as *mut u8) }, 0));
+    }
+    let p = unsafe {
+        if zeroed {
+            std::alloc::alloc_zeroed(layout)
+        } else {
+            std::alloc::alloc(layout)
+        }
+    };
+    NonNull::new(p).map(|p| NonNull::slice_from_raw_parts(p, layout.size())).ok_or(std::alloc::AllocError)
+}
+
+/// Stub for `Global::grow_impl` (Vec growth): same assertion on the new size.
+#[cfg(kani)]
+pub unsafe fn grow_impl_stub(_g: &std::alloc::Global, ptr: std::ptr::NonNull<u8>, old: std::alloc::Layout, new: std::alloc::Layout, zeroed: bool) -> Result<std::ptr::NonNull<[u8]>, std::alloc::AllocError> {
+    use std::ptr::NonNull;
+    assert!(new.size() <= ALLOC_LIMIT, "[C04] buffer grown out of proportion to the input length");
+    let p = if zeroed { std::alloc::alloc_zeroed(new) } else { std::alloc::alloc(new) };
+    let p = NonNull::new(p).ok_or(std::alloc::AllocError)?;
+    std::ptr::copy_nonoverlapping(ptr.as_ptr(), p.as_ptr(), old.size());
+    if old.size() != 0 {
+        std::alloc::dealloc(ptr.as_ptr(), old);
+    }
+    Ok(NonNull::slice_from_raw_parts(p, new.size()))
+}
+
+macro_rules! alloc_harness {
+    ($name:ident, $n:expr, $code:expr, |$buf:ident| $call:expr) => {
+        #[cfg(kani)]
+        #[kani::proof]
+        #[kani::stub(alloc::fmt::format, crate::vsrc::stub_format)]
+        #[kani::stub(alloc::alloc::Global::alloc_impl, crate::total::alloc_impl_stub)]
+        #[kani::stub(alloc::alloc::Global::grow_impl, crate::total::grow_impl_stub)]
+        pub fn $name() {
+            let mut $buf: [u8; $n] = kani::any();
+            $buf[0] = $code;
+            unsafe { ALLOC_LIMIT = $n + 4096 + 64 };
+            let r = $call;
+            kani::cover!(r.is_err(), "decoder returned Err");
+            std::mem::forget(r);
+        }
+        #[cfg(not(kani))]
+        pub fn $name(s: &mut crate::vsrc::S) {
+            let mut $buf: [u8; $n] = s.bytes::<$n>();
+            $buf[0] = $code;
+            crate::alloc_track::reset();
+            let r = $call;
+            std::mem::forget(r);
+            let peak = crate::alloc_track::peak();
+            assert!(peak <= $n + 4096, "[C04] allocation out of proportion to the input length: a {}-byte input made the decoder request {} bytes", $n, peak);
+        }
+    };
+}
+
+// @unwind 4
+// @bound every 7-byte input starting with vbin32 / vbin8 / str32 / sym32: the size field is any 32-bit value, the data is (at most) 2 bytes
+// @desc a length field on the wire does not make the decoder allocate more than the input can justify (input length + 4 KiB)
+alloc_harness!(c04_alloc_vbin32_slice, 7, VBIN32, |buf| serde_amqp::from_slice::<serde_bytes::ByteBuf>(&buf));
+// @tier-of c04_alloc_vbin32_io thorough
+// @mem 40
+alloc_harness!(c04_alloc_vbin32_io, 7, VBIN32, |buf| serde_amqp::from_reader::<serde_bytes::ByteBuf>(&buf[..]));
+alloc_harness!(c04_alloc_vbin8_slice, 4, VBIN8, |buf| serde_amqp::from_slice::<serde_bytes::ByteBuf>(&buf));
